@@ -418,6 +418,8 @@ type SearchOpts struct {
 	GoalNode func(n ast.Node) bool
 	// GoalExit: whether reaching an exit of this kind is a goal.
 	GoalExit func(kind ExitKind, last ast.Node) bool
+	// StopBlock: entering a block satisfying this blocks the path.
+	StopBlock func(b *cfg.Block) bool
 	// GoalBlock: entering a block satisfying this is a goal.
 	GoalBlock func(b *cfg.Block) bool
 	// EdgeOK filters edges (from block, succ index k, to block); nil = all.
@@ -472,6 +474,9 @@ func (g *Graph) FindPath(from Loc, o SearchOpts) ([]ast.Node, bool) {
 				continue
 			}
 			if o.EdgeOK != nil && !o.EdgeOK(blk, k, s) {
+				continue
+			}
+			if o.StopBlock != nil && o.StopBlock(s) {
 				continue
 			}
 			if o.GoalBlock != nil && o.GoalBlock(s) {
